@@ -11,6 +11,7 @@ import CliUtils.Drv.Status
 import CliUtils.Drv.C16
 import CliUtils.Drv.C18
 import CliUtils.Drv.PruneStep
+import CliUtils.Drv.RunnerCache
 import CliUtils.Drv.CacheReader
 import CliUtils.Drv.Scope
 /-
@@ -40,6 +41,7 @@ def handlers : List (String × Handler) := [
   ("graph", C14.handleGraph),
   ("depgraph", C14.handleDepgraph),
   ("prunestep", PruneStep.handlePruneStep),
+  ("runnercache", RunnerCache.handleRunnerCache),
   ("scope", ScopeD.handleScope),
   ("policy", Filters.handlePolicy), ("depfilter", Filters.handleDepfilter),
   ("sys", SysD.handleSysFor "all"),
